@@ -1,7 +1,10 @@
+mod checks_t;
 mod explore;
 mod report;
 mod sched;
 mod sim;
+mod spec;
+mod tmodel;
 mod tower;
 mod world;
 
@@ -10,14 +13,33 @@ fn main() {
     let args: Vec<String> = std::env::args().skip(1).collect();
     let cmd = args.first().cloned().unwrap_or_default();
     let a = report::parse_args(&args[1.min(args.len())..]);
+    if let Some(path) = &a.replay {
+        let v: serde_json::Value = serde_json::from_str(&std::fs::read_to_string(path).unwrap()).unwrap();
+        let code = match v["replay"]["history"]["engine"].as_str() {
+            Some("T") => tmodel::replay(&v),
+            _ => {
+                eprintln!("no replayer for this file");
+                2
+            }
+        };
+        tower::cleanup_scratch();
+        std::process::exit(code);
+    }
     let code = match cmd.as_str() {
         "smoke" => smoke(),
+        "C01" => checks_t::c01(a.tier),
+        "C02" => checks_t::c02(a.tier),
+        "C04" => checks_t::c04(a.tier),
+        "C07" => checks_t::c07(a.tier),
+        "C08" => checks_t::c08(a.tier),
+        "C09" => checks_t::c09(a.tier),
         _ => {
             eprintln!("usage: verif <C01..C20|selftest|smoke> [--tier quick|thorough] [--replay file]");
             let _ = a;
             2
         }
     };
+    tower::cleanup_scratch();
     std::process::exit(code);
 }
 
